@@ -10,6 +10,7 @@ import UtilModel.Routine.ProofsObs5
 import UtilModel.Routine.ProofsObs6
 import UtilModel.Routine.ProofsObs7
 import UtilModel.Routine.ProofsObs8
+import UtilModel.Routine.ProofsObs9
 import UtilModel.Routine.ProofsAsm
 import UtilModel.Routine.ProofsRT
 import UtilModel.Routine.Monitors
@@ -556,6 +557,19 @@ replaced-record clause, which is the function part of C05's lineage clause (`mon
 theorem C14h_obs (es : List Ev) (s : St) (hr : model.run model.init es = some s) :
     monC14h.accepts (es.filterMap model.obs) = true :=
   monC14h_of_clauses _ (C14hb_obs es s hr) (monC14hf_of_C05l _ (C05l_obs es s hr))
+
+/-- **C14, WaitExited results, observable form** (`C14w_obs`): the WaitExited clause of monitor C14 accepts the trace
+of every run of the model: WaitExited returns context.Canceled (own context cancelled, error channel closed, or an
+instance that never entered), nil when asked to return if nothing is running, an error sent on its error channel,
+or the result of an instance that returned and had not been superseded for sure when WaitExited was called. Rests on
+`step_curStep` (an instance that is not the container's current instance never becomes current again), `EF` (an
+exited record keeps its error until it is started again) and `apiCS_sup` (after a superseding critical section no
+earlier instance is current). -/
+theorem C14w_obs (es : List Ev) (s : St) (hr : model.run model.init es = some s) :
+    monC14w.accepts (es.filterMap model.obs) = true := by
+  obtain ⟨ms, h, _⟩ := wl_run model.init s es good_init {} wlink_init {} linkA_init rfl hr
+  have : monC14w.run monC14w.init (es.filterMap model.obs) = some ms := h
+  simp [ObsMonitor.accepts, this]
 
 /-- state form of the same fact: the critical section of a retry timer never cancels an instance that has not
 exited (it restarts the routine only when the record has exited, and the instance it cancels is that one) -/
